@@ -37,7 +37,7 @@ class C10(Prop):
     anchors = ["aioswitcher.schedule.parser:get_schedules", "aioswitcher.schedule.parser:ScheduleParser.get_days",
                "aioswitcher.schedule.parser:ScheduleParser.get_start_time", "aioswitcher.api:SwitcherType1Api.get_schedules",
                "aioswitcher.api:SwitcherType1Api.create_schedule", "aioswitcher.api.messages:SwitcherGetSchedulesResponse.__post_init__"]
-    min_evaluations = {"quick": 4_000, "thorough": 100_000}
+    min_evaluations = {"quick": 20_000, "thorough": 200_000}
     budget_s = {"quick": 60, "thorough": 900}
 
     def selftest(self):
@@ -55,7 +55,7 @@ class C10(Prop):
         await self.rig.close()
 
     def cases(self, tier, seed, shard, nshards):
-        n = {"quick": 560, "thorough": 14_000}[tier]
+        n = {"quick": 2_800, "thorough": 28_000}[tier]
         for i in range(shard, n, nshards):
             yield {"i": i, "seed": seed}
 
@@ -125,7 +125,7 @@ class C10(Prop):
                 recs = record_set(n)
                 raw = [replies.schedule_record(s, m, a, b, enabled=r.choice([0, 1]), state=r.choice([0, 1]), trailer=r.randbytes(4)) for s, m, a, b in recs]
                 reply = replies.schedules(raw, header=r.randbytes(45) if k % 2 else None)
-                acc.ev()
+                acc.ev(max(1, n))
                 try:
                     resp = self.messages.SwitcherGetSchedulesResponse(reply)
                 except Exception as exc:
